@@ -55,7 +55,7 @@ type listData struct {
 var (
 	predNames = []string{"always", "never", "class-b", "first-representatives"}
 	predSlots = [][]int{{1, 2, 3, 4, 5, 6}, {}, {3, 4}, {1, 3, 5}}
-	defSlots  = []int{3, 6}
+	defSlots  = []int{2, 3, 6}
 	slotNames = []string{"a", "a'", "b", "b'", "c", "c'"}
 )
 
